@@ -1565,6 +1565,8 @@ class RepeatingEngine(Engine):
         self.lastExecution = False
         #Indicates that the repeating kernel won't execute again.
         self.kernelCompleted = False
+        #True while the monitor thread is inside an iteration (which may be about to launch a task)
+        self._iterationInProgress = False
         self.log = logging.getLogger('RepEng.%s' % self.job.reference.lower())
         self.producer_recently_finished_successfully = False
         max_retries = self.job.workflowAttributes['repeatRetries']
@@ -1748,8 +1750,15 @@ class RepeatingEngine(Engine):
 
         self.log.debug('Check for new producer output before launch?: %s' % checkProducerOutput)
 
-        # Closure for running the repeating task
         def EngineTaskController(lastAction):
+            self._iterationInProgress = True
+            try:
+                return RunIteration(lastAction)
+            finally:
+                self._iterationInProgress = False
+
+        # Closure for running the repeating task
+        def RunIteration(lastAction):
 
             '''
             Parameter:
@@ -2017,7 +2026,8 @@ class RepeatingEngine(Engine):
             2. Success - Everything else'''
 
         reason = None
-        if self.lastExecution is False:
+        # While the monitor thread is inside an iteration it may still launch a task: the engine has not exited
+        if self.lastExecution is False and self._iterationInProgress is False:
             if self.cancelMonitorEvent.is_set():
                 #The task has been flagged to finish
                 #Check if it actually has
